@@ -176,7 +176,16 @@ HasRawSum(es) == \E i \in 1..Len(es) :
 HookWhy(n, env) ==
   LET x == StripParen(HookWrapped(n))
       as == HookArgs(n)
-      Judge(es) == IF ArgsAre(as, es)
+      \* a spread operand reaches the call and the hook from ONE expansion: it must be a temporary
+      \* holding an array ([...E] or an array literal) or a literal
+      SpreadOnce(es) == \A i \in 1..Len(es) :
+                          es[i][2] =>
+                            LET e == StripParen(es[i][1]) IN
+                            \/ IsLit(e)
+                            \/ /\ IsInjIdent(e, env) /\ Bound(env, e.v)
+                               /\ StripParen(env.b[e.v].raw).t = "ArrayExpression"
+      Judge(es) == IF ~SpreadOnce(es) THEN "a spread operand is expanded more than once (not materialised as an array)"
+                   ELSE IF ArgsAre(as, es)
                    THEN IF HasRegExp(es) THEN "dev:D18-regexp-literal-operand-evaluated-twice" ELSE ""
                    ELSE IF HasRawSum(es) /\ Len(as) < Len(es) THEN "dev:D7b-nonconstant-sum-operand-omitted"
                    ELSE "hook arguments differ from the operands of the wrapped operation"
